@@ -73,7 +73,7 @@ func (nd *netNode) emitTable(seg int, kind string, s rtSender, ro, matched bool)
 	}
 	st := srv.Stats()
 	nd.rt.Emit(sim.M{"seg": seg, "e": kind, "s": s, "ro": ro, "matched": matched, "drop": false, "snap": sl, "numNodes": srv.NumNodes(),
-		"statsNodes": st.Nodes, "goodNodes": st.GoodNodes, "nodes": nodes, "addrIndex": srv.VerifAddrIndexSize()})
+		"statsNodes": st.Nodes, "goodNodes": st.GoodNodes, "nodes": nodes, "addrIndex": srv.VerifAddrIndexSize(), "addrIndexBad": srv.VerifAddrIndexMismatch()})
 }
 
 // tableEvent: the routing-table view of a datagram delivered to this node.
